@@ -24,7 +24,28 @@ fn top(nhays: u8, flavor: u8) -> BoxedStrategy<TOp> {
         // the same storm on haystacks of 64 bytes and more (the one-shot functions build a searcher per call there)
         return (h.clone(), any::<u8>(), any::<u8>(), prop::sample::select(vec![0u8, 1, 1, 2])).prop_map(|(h, n, c, r)| TOp::OneShot(h, n, c | 1, r)).boxed();
     }
+    if flavor == 7 {
+        // first use of the shared finder on a short prefix (the Rabin-Karp zone of the meta searcher) racing
+        // with clones of it (find_iter clones the searcher)
+        return prop_oneof![
+            3 => (h.clone(), 0u8..24, prop::sample::select(vec![0u8, 0, 2])).prop_map(|(h, c, m)| TOp::FindCut(h, c, m)),
+            2 => h.clone().prop_map(TOp::FindIter),
+        ]
+        .boxed();
+    }
+    if flavor == 5 {
+        // a storm on the SHARED finders, which no thread has used before the barrier: first use, clones
+        // (find_iter) and the short-haystack paths race with each other
+        return prop_oneof![
+            2 => h.clone().prop_map(TOp::Find),
+            3 => h.clone().prop_map(TOp::Rfind),
+            2 => h.clone().prop_map(TOp::FindIter),
+            3 => (h.clone(), any::<u8>(), 0u8..3).prop_map(|(h, c, m)| TOp::FindCut(h, c, m)),
+        ]
+        .boxed();
+    }
     prop_oneof![
+        1 => (h.clone(), any::<u8>(), 0u8..3).prop_map(|(h, c, m)| TOp::FindCut(h, c, m)),
         3 => (b.clone(), h.clone()).prop_map(|(a, h)| TOp::Memchr(a, h)),
         2 => (b.clone(), h.clone()).prop_map(|(a, h)| TOp::Memrchr(a, h)),
         2 => (b.clone(), b.clone(), h.clone()).prop_map(|(a, c, h)| TOp::Memchr2(a, c, h)),
@@ -42,11 +63,15 @@ fn top(nhays: u8, flavor: u8) -> BoxedStrategy<TOp> {
 }
 
 pub fn program(max_threads: usize) -> impl Strategy<Value = Program> {
+    program_flavors(max_threads, vec![0, 1, 2, 3, 4, 5, 6, 7])
+}
+
+pub fn program_flavors(max_threads: usize, flavors: Vec<u8>) -> impl Strategy<Value = Program> {
     (
         subgen::needle_spec(),
         prop::collection::vec((prop::collection::vec(subgen::piece(), 1..=6), any::<u64>()), 2..=4),
         2usize..=max_threads,
-        0u8..5,
+        prop::sample::select(flavors),
         prop::sample::select(vec![1u32, 1, 20, 400]),
     )
         .prop_flat_map(|(spec, hs, nthreads, flavor, reps)| {
@@ -80,7 +105,9 @@ pub fn program(max_threads: usize) -> impl Strategy<Value = Program> {
                     t[0] = first.clone();
                 }
             }
-            Program { needle, hays, threads, reps }
+            // rounds: the whole program is repeated with FRESH shared finders (first-use races exist once per finder)
+            let rounds = if reps > 1 { 1 } else { [1u32, 6, 24][threads.len() % 3] };
+            Program { needle, hays, threads, reps, rounds }
         })
 }
 
@@ -89,7 +116,7 @@ fn same_first_routine(p: &Program) -> bool {
     let mut n = 0;
     for i in 0..p.threads.len() {
         for j in i + 1..p.threads.len() {
-            if kind(&p.threads[i][0]) == kind(&p.threads[j][0]) && !matches!(p.threads[i][0], TOp::Find(_) | TOp::Rfind(_) | TOp::FindIter(_) | TOp::OneShot(..)) {
+            if kind(&p.threads[i][0]) == kind(&p.threads[j][0]) && !matches!(p.threads[i][0], TOp::Find(_) | TOp::Rfind(_) | TOp::FindIter(_) | TOp::OneShot(..) | TOp::FindCut(..)) {
                 n += 1;
             }
         }
@@ -117,6 +144,11 @@ fn oneshot_mix(p: &Program) -> bool {
     false
 }
 
+/// two threads whose FIRST operation goes through the shared finders (nobody has used them before the barrier)
+fn shared_first(p: &Program) -> bool {
+    p.threads.iter().filter(|t| matches!(t.first(), Some(TOp::Find(_)) | Some(TOp::Rfind(_)) | Some(TOp::FindIter(_)) | Some(TOp::FindCut(..)))).count() >= 2
+}
+
 pub fn c15(ctx: &Ctx) -> Frag {
     let mut frag = ctx.frag("threads-proptest");
     let mvexec = ctx.rest.iter().position(|a| a == "--mvexec").and_then(|i| ctx.rest.get(i + 1)).cloned();
@@ -127,7 +159,7 @@ pub fn c15(ctx: &Ctx) -> Frag {
             return frag;
         }
     };
-    frag.require(&[">= 2 threads whose first operation is the same dispatched routine", ">= 2 threads in one-shot memmem::find on short haystacks with needles of different lengths", "operations repeated >= 400 times per thread"]);
+    frag.require(&[">= 2 threads whose first operation is the same dispatched routine", ">= 2 threads in one-shot memmem::find on short haystacks with needles of different lengths", "operations repeated >= 400 times per thread", ">= 2 threads whose first operation uses the shared, so far unused finder"]);
     let cases = ctx.n(300, 20_000) as u32;
     let max_threads = if ctx.thorough { 32 } else { 16 };
     let dir = std::env::temp_dir().join(format!("mvthreads-{}-{}", std::process::id(), ctx.shard));
@@ -175,6 +207,9 @@ pub fn c15(ctx: &Ctx) -> Frag {
                 if !nt {
                     s.frag.nontrivial_hashes.insert(mvcore::oracle::fnv(&[text.as_bytes()]));
                 }
+            }
+            if shared_first(&p) {
+                s.frag.class(">= 2 threads whose first operation uses the shared, so far unused finder");
             }
             if p.reps >= 400 {
                 s.frag.class("operations repeated >= 400 times per thread");
@@ -244,9 +279,19 @@ pub fn gen_threads(ctx: &Ctx) {
     let dir = ctx.out.clone().expect("--out dir");
     std::fs::create_dir_all(&dir).ok();
     let mut runner = crate::ctx::runner(ctx.stream_seed("gen-threads"), 1);
-    let strat = program(4);
+    let any_flavor = program(4);
+    let finder_storm = program_flavors(4, vec![5]);
+    let clone_storm = program_flavors(4, vec![7]);
+    let oneshot_storm = program_flavors(4, vec![2, 3]);
     for i in 0..count {
-        let mut p = strat.new_tree(&mut runner).expect("generate").current();
+        // a third of the interpreted programs are shared-finder storms, a sixth one-shot storms
+        let mut p = match i % 6 {
+            1 => finder_storm.new_tree(&mut runner).expect("generate").current(),
+            4 => clone_storm.new_tree(&mut runner).expect("generate").current(),
+            3 => oneshot_storm.new_tree(&mut runner).expect("generate").current(),
+            _ => any_flavor.new_tree(&mut runner).expect("generate").current(),
+        };
+        p.rounds = 1;
         for h in p.hays.iter_mut() {
             h.truncate(96);
         }
